@@ -19,7 +19,7 @@ ASSUMPTIONS = ['tilt-free wavefronts only (tilt is C04)', 'all-zero masks are re
 PLAN = {'quick': {'gen': 8}, 'thorough': {'gen': 16, 'tests': 1, 'docs': 1}}
 REQUIRED_BUCKETS = ['in:ee', 'in:oo', 'in:eo', 'in:oe', 'out:even', 'out:odd', 'dx:iso', 'dx:aniso', 'du:iso', 'du:aniso',
                     'prop<shape', 'prop=shape', 'mask', 'nomask', 'dir:pupil->image', 'dir:image->pupil', 'chain:2',
-                    'mask+prop', 'repeated', 'segmented', 'shape:small-int', 'scalars:float32', 'broadband', 'fft:broadband-scratch', 'alpha:near-critical']
+                    'mask+prop', 'repeated', 'segmented', 'shape:small-int', 'scalars:float32', 'broadband', 'fft:broadband-scratch', 'alpha:near-critical', 'fft:explicit-shape', 'fft:explicit-shape:odd', 'mask:object-reused', 'amp:any-magnitude']
 REQUIRED_ANCHORS = ['probe:propagate_dft', 'probe:propagate_fft', 'anchor:_dft_alpha', 'anchor:_mask_shift', 'anchor:dft2',
                     'anchor:intersection_shift']
 REQUIRED_ORACLES = ['dft=fraunhofer', 'dft=fraunhofer:meta', 'dft=fraunhofer:outside=0', 'fft=fraunhofer', 'fft=fraunhofer:meta']
@@ -100,6 +100,15 @@ def fft_broadband(ctx, lentil, rng):
                 lentil.propagate_fft(lentil.Wavefront(wl) * pupil, du0, oversample=os_, scratch=scratch)
                 if rng.random() < 0.3:
                     lentil.propagate_fft(lentil.Wavefront(wl) * pupil, du0, oversample=os_)
+                # an explicit output shape only chooses the centred window (any parity of shape, shape*oversample and grid)
+                gs = int(np.floor(wl * z * os_ / (dx0 * du0) + 0.5)) // os_
+                if gs >= 2:
+                    shp = (int(rng.integers(1, gs + 1)), int(rng.integers(1, gs + 1)))
+                    ctx.bucket('fft:explicit-shape')
+                    if (shp[0] * os_) % 2 == 1 or (shp[1] * os_) % 2 == 1:
+                        ctx.bucket('fft:explicit-shape:odd')
+                    lentil.propagate_fft(lentil.Wavefront(wl) * pupil, du0, shape=shp if rng.random() < 0.7 else shp[0], oversample=os_,
+                                         **({'scratch': scratch} if rng.random() < 0.5 else {}))
             except Exception as e:
                 ctx.check(False, 'fft=fraunhofer', f'fft-broadband|raises={type(e).__name__}', str(e), {'wl': wl})
 
@@ -142,6 +151,10 @@ def workload(ctx, lentil):
         shape = gen.rshape(rng, 3, hi)
         sup = gen.support(rng, shape)
         amp = gen.amplitude(rng, sup)
+        if i % 10 == 7:
+            # the field of a faint star or of a laser: every magnitude is a field like any other
+            amp = amp * float(10 ** rng.uniform(-14, 12))
+            ctx.bucket('amp:any-magnitude')
         opd = gen.opd(rng, shape, wl) if rng.random() < 0.8 else 0
         direction = 'pupil->image' if rng.random() < 0.7 else 'image->pupil'
         oshape = gen.rshape(rng, 1, 14)
@@ -227,6 +240,11 @@ def workload(ctx, lentil):
                 # the same propagation again (same DFT shape keys): the probe checks every call, so a result that is only
                 # right the first time a shape is seen does not go unnoticed
                 ctx.bucket('repeated')
+                lentil.propagate_dft(w, du, oversample=os_, **kw)
+            if mask is not None and i % 2 == 0:
+                # the caller keeps one mask array and rewrites its contents between calls (a moving region of interest)
+                mask[...] = np.roll(mask, (int(rng.integers(1, 3)), -int(rng.integers(1, 3))), axis=(0, 1))
+                ctx.bucket('mask:object-reused')
                 lentil.propagate_dft(w, du, oversample=os_, **kw)
         except Exception:
             pass
